@@ -18,7 +18,7 @@ from pathlib import Path
 DIR_NAMES = ["docs", "src", "build", "node_modules", "sub", "a", "b", "notes", "vendor", ".venv", "pkg.egg-info", "drafts", "x y", "Docs", "deep"]
 FILE_NAMES = ["a.md", "b.md", "README.md", "notes.txt", "c.markdown", "ign.md", "keep.md", "x.MD", "big.md", ".hidden.md", "d.mdx", "z.md", "a b.md", "é.md"]
 GI_LINES = ["ign.md", "*.md", "!keep.md", "docs/", "/a.md", "docs/ign.md", "sub/", "/docs/sub/b.md", "**/z.md", "a/**/b.md", "b?.md", "# comment", "",
-            "!docs/", "*.txt", "/build", "notes", "!README.md", "deep/*", "!deep/keep.md", "x y/", "[ab].md", "docs/**", "*.m?", "!*.md", "ign.md ", "\\!x.md", "sub"]
+            "!docs/", "*.txt", "/build", "notes", "!README.md", "deep/*", "!deep/keep.md", "x y/", "[ab].md", "docs/**", "*.m?", "!*.md", "ign.md ", "\\!x.md", "sub", "!sub", "!notes", "!/docs", "b*", "!build", "/deep/a.md", "docs/sub"]
 TI_LINES = ["ign.md", "drafts/", "docs/ign.md", "/a.md", "*.markdown", "sub/", "# c", "docs/sub/", "!keep.md", "**/z.md"]
 
 
@@ -46,6 +46,29 @@ def _mk(rng, d: Path, depth: int, st: dict, git: bool, links: bool) -> None:
             st["dirs"].append(d / name)
 
 
+def plant_reinclude(rng: random.Random, t: Tree) -> None:
+    """a directory (or file) ignored by a .gitignore higher up and re-included by a negation in a .gitignore further down
+    that is still above it — the shape nested .gitignore files exist for"""
+    deep = [d for d in t.dirs if len(d.relative_to(t.root).parts) >= 2]
+    if not deep:
+        return
+    d = rng.choice(deep)
+    parent = d.parent
+    upper = rng.choice([t.root] + [p for p in parent.parents if t.root in p.parents or p == t.root][:2])
+    name = d.name
+    up_line = rng.choice([name, name + "/", name[:1] + "*", "/" + d.relative_to(upper).as_posix()])
+    down_line = rng.choice(["!" + name, "!/" + name, "!" + name[:1] + "*"])
+    if upper == parent:
+        return
+    with open(upper / ".gitignore", "a") as f:
+        f.write(up_line + "\n")
+    with open(parent / ".gitignore", "a") as f:
+        f.write(down_line + "\n")
+    if not any(p.is_file() for p in d.iterdir()):
+        (d / "planted.md").write_text("p")
+        t.files.append(d / "planted.md")
+
+
 def gen_tree(rng: random.Random, git: bool = True, links: bool = True, toolignore: bool = True) -> Tree:
     t = Tree(Path(tempfile.mkdtemp(prefix="fmtree.")))
     st = {"files": [], "dirs": []}
@@ -55,6 +78,8 @@ def gen_tree(rng: random.Random, git: bool = True, links: bool = True, toolignor
     (t.outside / "odir").mkdir()
     (t.outside / "odir" / "o.md").write_text("o")
     t.files, t.dirs = st["files"], st["dirs"]
+    if git and rng.random() < 0.35:
+        plant_reinclude(rng, t)
     if toolignore and rng.random() < 0.5:
         where = rng.choice([t.root, t.root.parent, t.root] + t.dirs[:2])
         (where / ".flowmarkignore").write_text("\n".join(rng.choice(TI_LINES) for _ in range(rng.randint(1, 3))) + "\n")
@@ -120,6 +145,30 @@ def gen_args(rng: random.Random, t: Tree, globs: bool = True) -> list[str]:
         else:
             args.append(str(t.root))
     return args
+
+
+class cwd:
+    """run a block with another working directory (relative arguments)"""
+    def __init__(self, path):
+        self.path = str(path)
+
+    def __enter__(self):
+        self.old = os.getcwd()
+        os.chdir(self.path)
+
+    def __exit__(self, *a):
+        os.chdir(self.old)
+
+
+def relativise(rng: random.Random, t: Tree, args: list[str]) -> tuple[list[str], str]:
+    """the same arguments, written relative to the tree's root in about a third of the cases; returns (args, cwd)"""
+    if rng.random() < 0.35:
+        out = []
+        for a in args:
+            rel = os.path.relpath(a, t.root) if not any(c in a for c in "*?[") else a[len(str(t.root)) + 1:]
+            out.append(rel)
+        return out, str(t.root)
+    return args, str(t.base)
 
 
 def real_resolve(settings: dict, args: list[str]) -> list[str]:
